@@ -44,7 +44,7 @@ theorem interned_roundtrip_nested {env : Nat → NTy} {hash : Nat → NVal → N
   have := h3.canon
   rwa [handlesAbove_zero] at this
 
-/-- The same with the hypothesis on the decoder-side interner WEAKENED to what the repaired decoder (/repo F61COMMIT:
+/-- The same with the hypothesis on the decoder-side interner WEAKENED to what the repaired decoder (/repo 8f43b2a:
 the decode session keeps every handle it produced alive) needs — `IOkW`: every live entry's payload lies in the
 collision-free universe and is filed under its own hash; NO canonicity of the live values is assumed, so a live
 value may hold `Interned::new_duplicating` handles that the interner knows nothing about (finding F61's history).
@@ -228,7 +228,7 @@ example : (match aliveInterner exEnv exHash 41 [(exTy, exVal), (.handle 0, leaf)
         | .ok (d, _, I') => (d.handles.map (fun x => x.2.1), I.length, I'.length) | .error _ => ([], 0, 0))
     | none => ([], 0, 0)) = ([0, 2, 0, 1], 7, 7) := by decide
 
-/-! ### finding F61 (fixed by /repo F61COMMIT): the history, the historical witness, and the repaired decoder -/
+/-! ### finding F61 (fixed by /repo 8f43b2a): the history, the historical witness, and the repaired decoder -/
 
 /-- the decoder-side interner of F61's history: ONE live value `e = Node { label 2, kids [leaf'] }` (slot 0) whose
     inner handle `leaf'` was made by `Interned::new_duplicating` — an allocation (number 99) the interner does not know -/
@@ -240,7 +240,7 @@ def f61Val : NVal := .list [.handle 0 (.list [.plain (.nat 2), .list [leaf], non
 
 example : encodeTop exEnv exHash f61Ty f61Val = [0, 2, 1, 0, 1, 0, 0, 0, 1, 1, 0] := by decide
 
-/-- HISTORICAL WITNESS (`keep = false`, the decoder before F61COMMIT): the leaf read inside `e`'s payload is interned
+/-- HISTORICAL WITNESS (`keep = false`, the decoder before 8f43b2a): the leaf read inside `e`'s payload is interned
     (fresh allocation), `intern(e)` returns the live `e` and drops the payload with it, the reference that follows
     misses: `expect` panics -/
 example : (match dec false exEnv exHash 20 f61Ty (encodeTop exEnv exHash f61Ty f61Val) f61I with
